@@ -209,6 +209,12 @@ def oracle(ctx):
                 if dn > 1e-9 or dpn > 1e-9:
                     ctx.violation("normalised_state", case, {"pos_n": list(pn), "vel_n": list(vn), "rel_v": dn, "rel_p": dpn},
                                   "the same state (velocity*106.30225 km/s, position*6378.135 km), so that its velocity is the derivative of its position too", site="Orbital.get_position(normalize=True)")
+                # ... and the state in km asked AGAIN at the same instant, after the normalised call, is the state it was
+                p_again, v_again = o.get_position(t, normalize=False)
+                if not (np.array_equal(np.asarray(p_again), p) and np.array_equal(np.asarray(v_again), v)):
+                    ctx.violation("state_changed_by_normalised_call", dict(case, sequence=["km", "normalised", "km"]),
+                                  {"pos_again": list(np.asarray(p_again)), "pos_first": list(p)},
+                                  "the same state as the first call at this instant (bit-identical)", site="Orbital.get_position")
             except Exception:  # noqa
                 pass
             hvec = np.cross(p, v)
